@@ -110,7 +110,8 @@ impl<VS: VersionSet> Term<VS> {
     pub(crate) fn is_disjoint(&self, other: &Self) -> bool {
         match (self, other) {
             (Self::Positive(r1), Self::Positive(r2)) => r1.is_disjoint(r2),
-            (Self::Negative(r1), Self::Negative(r2)) => r1 == &VS::empty() && r2 == &VS::empty(),
+            // Two negative terms are never disjoint: both hold when no version is selected.
+            (Self::Negative(_), Self::Negative(_)) => false,
             // If the positive term is a subset of the negative term, it lies fully in the region that the negative
             // term excludes.
             (Self::Positive(p), Self::Negative(n)) | (Self::Negative(n), Self::Positive(p)) => {
